@@ -15,7 +15,7 @@ CHECKS = {
     "C04": dict(
         text="All matrix-algebra laws (associativity with points and matrices, two-sided inverse, identity, every pre_/post_ operation with and "
              "without centre, constructors) are proved for all real 6-tuples/points/arguments; transform strings are proved against a "
-             "right-most-first oracle for every list of <=2 (thorough <=3) functions over all 11 names, arities, angle/length units, separators and case, with all numbers symbolic.",
+             "right-most-first oracle for every list of <=2 (thorough <=3) functions over all 11 names, arities, angle/length units, separators and case, with all numbers symbolic. Lengths with units (in, pt, pc) are placed before and after functions they do not commute with and next to each other, and must combine as the resolved values do.",
         ref="DESIGN.md 4/C04",
         note=NOTE_COMMON + "Outside: lists longer than the bound, numeric spellings (C01), tan at its poles."),
 }
@@ -73,7 +73,7 @@ CHECKS["C18"] = dict(
     text="Aliasing as information flow: for every element kind x every applicable derivation (copy, *M, abs, Path(x), Path(subpath), copy(subpath), subpath*M, group "
          "copy, ~, @, +) the real objects are built, one side is mutated through every public mutation (values written are fresh solver variables), and the value "
          "snapshot of the other side is proved unchanged for all values; operator purity (operands of *, +, abs, ~ unchanged, incl. the other operand) and value "
-         "equality of copies; single mutations for all kinds and all ordered pairs for Path/Polyline/Rect/Group (thorough: pairs for all, triples for Path/Group).",
+         "equality of copies; single mutations for all kinds and all ordered pairs for Path/Polyline/Rect/Group (thorough: pairs for all, triples for Path/Group). Derivations include segment + segment and segment + string.",
     ref="DESIGN.md 4/C18",
     note=NOTE_COMMON + "The property is value-independent, so the solver's role is to exclude coincidences: a shared sub-object makes a fresh variable appear in the "
          "untouched snapshot and the equality query satisfiable. Outside: longer histories; colour mutations use concrete values; Image pixel data.")
@@ -91,7 +91,7 @@ CHECKS["C03"] = dict(
     text="The real SVG.parse (expat, value inheritance, transform-string concatenation, use expansion, viewport transforms, render, reify) runs on generated documents whose "
          "every number is symbolic (tag numerals); for ~60 skeletons x reify in {True, False} (nesting <= 3: svg/g/defs/use/nested svg, transform lists on any element, "
          "units and percentages, display:none, dangling/nested use, caller size and transform) the count, order and kinds of rendered shapes and every absolute "
-         "defining point of abs(Path(shape)) are proved equal to a fold of reference matrices over the ancestor chain applied to the SVG 2 decomposition.",
+         "defining point of abs(Path(shape)) are proved equal to a fold of reference matrices over the ancestor chain applied to the SVG 2 decomposition. Also: rounded rectangles under non-uniform scale (reify True/False) and percentage content after leaving two nested viewports.",
     ref="DESIGN.md 4/C03",
     note=NOTE_COMMON + "Outside: deeper nesting, round shapes under non-similarity transforms (C02/C06), text/images, stylesheet effects (C14).")
 
@@ -118,7 +118,7 @@ CHECKS["C10"] = dict(
          "text, image} next to / inside / before sibling shapes; the faulty attribute value is a template with 1-2 fully symbolic characters (they cross expat as "
          "placeholders and become symbolic again in the module's regex/number parsers) or one of ~200 catalogued malformed values, for transform, fill, stroke, "
          "widths, opacities, lengths, points, viewBox, preserveAspectRatio, d, style, href; dangling/self/ancestor/mutually cyclic use. Proved per path: no "
-         "exception leaves parse, and every element outside the faulty subtree has the geometry and paint of the parse without the faulty element.",
+         "exception leaves parse, and every element outside the faulty subtree has the geometry and paint of the parse without the faulty element. The fault vocabulary includes lengths that cannot be resolved (em/ex/vw) in sizes and in transform lists, and a nested svg with a viewBox.",
     ref="DESIGN.md 4/C10",
     note=NOTE_COMMON + "Outside: faults in stylesheet text, more than one fault per document, symbolic non-ASCII characters reaching str.lower() (paths end as unsupported).")
 
@@ -166,7 +166,7 @@ CHECKS["C05"] = dict(
          "generalised intermediates: primed coordinates, radii scaled by exactly sqrt(Lambda) iff Lambda > 1 (then the end points just fit), non-negative radicand, "
          "c^2, sign of the root by fA=fS, centre, both end points on the ellipse, prx/pry = rotated semi-axes, sign(u x v) = sign(root), positive direction iff the "
          "sweep flag, more than a half turn iff the large-arc flag; every point_at_t(tau) satisfies the ellipse equation; coincident end points draw nothing; zero "
-         "radii give the chord's points, length and ordered box; negative radii act as absolute values.",
+         "radii give the chord's points, length and ordered box; negative radii act as absolute values. Negative radii: through path data, through Path.arc's arguments and through the endpoint-form constructor.",
     ref="DESIGN.md 4/C05",
     note=NOTE_COMMON + "Outside: Arc.get_start_t/t_at_point (arc.point(t) replaced by point_at_t + end points on the ellipse), the exact half-turn boundary, IEEE rounding "
          "(the acos clamp is unreachable in exact reals). Some branch-feasibility queries time out: those paths are explored as unconfirmed and listed.")
@@ -177,7 +177,7 @@ CHECKS["C15"] = dict(
          "segments at every position and segment lengths as arbitrary non-negative solver variables: total = sum without moves, point(0)/point(1), and for ALL t the "
          "cumulative-interval law (right segment, right local fraction, no division by zero); Arc.length circle shortcut = r|sweep| for all centres/radii/sweeps; "
          "QuadraticBezier.length on the degenerate (collinear, doubling back) branch against the closed form; path and shape lengths are isometry-invariant given "
-         "invariant segment lengths.",
+         "invariant segment lengths. point(t) after reverse() of a path or of its subpath view follows the new order (cached lengths are discarded).",
     ref="DESIGN.md 4/C15",
     note=NOTE_COMMON + "NOT covered (not applicable to this technique, see DESIGN.md): 'equals the true arc length to within the requested error' for non-degenerate "
          "quadratics (logarithm closed form), cubics (adaptive subdivision whose depth depends on values) and elliptical arcs (elliptic integral): no SMT theory expresses the "
@@ -190,7 +190,7 @@ CHECKS["C19"] = dict(
          "rotation, start parameter, sweep in +-[1e-3, 7] and n = 1..3 slices (explicit and default count) every control point is proved to be the affine image of the kernel's, "
          "so every curve is an affine image of a kernel curve. Structure: n curves, first starts at the stored start, last ends at the stored end, consecutive curves join, "
          "interior joints on the ellipse, default count = ceil(|sweep|/30deg) up to 14 slices, zero sweep gives no curves; in a path the arc is replaced in place, the other "
-         "segments keep their values and the path stays connected.",
+         "segments keep their values and the path stays connected. A path with two arcs (the second one last) has both converted.",
     ref="DESIGN.md 4/C19",
     note=NOTE_COMMON + "Arc.get_start_t is replaced by its contract in the symbolic run (the replay runs the real one). Outside: the error bound for every curve parameter s "
          "(decided at s = 1/4, 1/2, 3/4; thorough tier attempts symbolic s), control-point formulas for more than 4 slices, the Lipschitz step from the circle to the ellipse (paper).")
